@@ -59,7 +59,7 @@ type runCfg struct {
 	bufs   map[string][]byte // by WGSL variable name
 	noTrap bool              // run with TrapMode off
 	steps  int
-	static bool              // tolerate static traps: return them instead of failing
+	static bool // tolerate static traps: return them instead of failing
 }
 
 type runOut struct {
